@@ -109,7 +109,11 @@ def gen_case(rng, hier, knobs=None):
             'name': 'mach' if rng.random() < 0.3 else None}
     machine_cbs = {k: g.cbs(0.6) for k in MACHINE_LISTS}
     tops = rng.sample(['A', 'B', 'C', 'D'], rng.randint(2, 4))
-    states = [_gen_state(g, n, hier, 0, knobs) for n in tops]
+    # states defined through an Enum (plain, IntEnum with a 0 member, str mix-in with values != names, StrEnum):
+    # leaf states only; members in state definitions, initial, add_model and half of the transition references
+    enum = rng.choice(['plain', 'int', 'strmix', 'strenum']) if rng.random() < knobs.get('p_enum', 0.15) else None
+    depth0 = 2 if enum else 0
+    states = [_gen_state(g, n, hier, depth0, knobs) for n in tops]
     names = all_names(states)
     transitions = []
     for _ in range(rng.randint(1, 5)):
@@ -153,7 +157,12 @@ def gen_case(rng, hier, knobs=None):
             cls = 'self'
         models.append({'cls': cls, 'initial': rng.choice(names) if (i > 0 and rng.random() < 0.4) else None})
     models.sort(key=lambda md: md['initial'] is not None)     # constructor models first: machine.models order
-    desc = {'hier': hier, 'graph': rng.random() < knobs.get('p_graph', 0.25), 'opts': opts, 'machine_cbs': machine_cbs, 'states': states, 'initial': rng.choice(tops),
+    graph = rng.random() < knobs.get('p_graph', 0.25)
+    if enum and hier:
+        # HierarchicalGraphMachine + Enum states: the diagram code resolves the model's Enum state relative to the
+        # scope add_states happens to be in ("Could not find path of …") — diagram business (C16), not the markup's
+        graph = False
+    desc = {'hier': hier, 'enum': enum, 'script': {}, 'graph': graph, 'opts': opts, 'machine_cbs': machine_cbs, 'states': states, 'initial': rng.choice(tops),
             'transitions': transitions, 'truth': truth, 'models': models, 'mods': [], 'history': []}
     # later modifications
     pool = list(names)
@@ -165,7 +174,7 @@ def gen_case(rng, hier, knobs=None):
             free = [n for n in ['E', 'F', 'G', 'H'] if n not in pool]
             if not free:
                 continue
-            sts = [_gen_state(g, n, hier, 1, knobs)       # depth 1: at most one more level
+            sts = [_gen_state(g, n, hier, 2 if enum else 1, knobs)       # depth 1: at most one more level
                    for n in free[:rng.choice([1, 1, 2, 3])]]
             pool += all_names(sts)
             desc['mods'].append(['add_state', sts[0]] if len(sts) == 1 and rng.random() < 0.5 else ['add_states', sts])
@@ -197,6 +206,7 @@ def gen_case(rng, hier, knobs=None):
     # walk the models somewhere, then the history run on original and rebuilt machine
     for _ in range(rng.randint(0, 4)):
         desc['mods'].append(['trigger', rng.randrange(len(models)), _rand_trigger(rng, desc, pool, trig)])
+    _gen_script(g, desc, pool, trig, knobs)
     # read-only observers and pickle / deepcopy restores, interleaved anywhere (incl. at the very end, where
     # no later dirty-setting call can repair the cached markup)
     extra = []
@@ -214,6 +224,78 @@ def gen_case(rng, hier, knobs=None):
     for _ in range(rng.randint(6, 14)):
         desc['history'].append([rng.randrange(len(models)), _rand_trigger(rng, desc, pool, trig)])
     return desc
+
+
+def _gen_script(g, desc, pool, trig, knobs):
+    """callback program: reads of machine.markup and dirty-setting modifications issued from INSIDE callbacks —
+    on_enter/on_exit of (preferably nested) states, callbacks of locally declared and of machine-level transitions —
+    plus a trigger that reaches the state concerned and model moves that make the callbacks run"""
+    rng = g.rng
+    if rng.random() > knobs.get('p_script', 0.35 if desc['hier'] else 0.15):
+        return
+    sites = []       # (callback list, state path or None)
+    for s, path in _walk_paths(desc['states']):
+        nested = SEP in path
+        for slot in ('on_enter', 'on_exit'):
+            sites += [(s[slot], path, s)] * (3 if nested else 1)
+        for t in s['transitions']:
+            for slot in ('prepare', 'before', 'after'):
+                sites.append((t[slot], None, None))
+    for t in desc['transitions']:
+        sites.append((t[rng.choice(['prepare', 'before', 'after'])], None, None))
+    truth = desc['truth']
+    fresh = ['P', 'Q']
+    # callbacks reached through a *locally declared* transition run while the machine is scoped into the declaring
+    # state, where add_transition/add_states/… act on that scope (nesting semantics, not the export's): with local
+    # transitions around, the program only reads
+    later = [st for m in desc['mods'] if m[0] in ('add_state', 'add_states') for st in ([m[1]] if m[0] == 'add_state' else m[1])]
+    reads_only = any(s['transitions'] for s in _walk(desc['states'] + later))
+    for _ in range(rng.randint(1, 3)):
+        lst, path, st = rng.choice(sites)
+        if not lst:
+            lst.append(g.cb())
+            if st is not None and st['form'] == 'str':
+                st['form'] = 'dict'      # a bare name cannot carry callbacks
+        name = rng.choice(lst)
+        cmds = desc['script'].setdefault(name, [])
+        r = rng.random()
+        if r < 0.45 or reads_only:
+            cmds.append(['read'])
+        elif r < 0.65:
+            base = all_names(desc['states'])
+            cmds.append(['add_transition', {'trigger': 'late%d' % rng.randint(0, 1), 'source': rng.choice(base),
+                                            'dest': rng.choice(base), 'conditions': [], 'unless': [], 'prepare': [],
+                                            'before': g.cbs(0.4), 'after': []}])
+        elif r < 0.8 and fresh and not (desc['hier'] and desc['opts']['auto_transitions']):
+            # (HierarchicalMachine.add_states from inside a nested state's enter/exit callback with auto_transitions
+            # on raises half way — get_global_name reads NestedState.name while _scope is set: nesting.py's business)
+            cmds.append(['add_state', _gen_state(g, fresh.pop(0), desc['hier'], 2 if desc.get('enum') else 1, knobs)])
+        elif r < 0.9:
+            cmds.append(['state_cb', rng.choice(['on_enter', 'on_exit']), rng.choice(pool), g.cb()])
+        elif trig:
+            cmds.append(['trans_cb', rng.choice(['before', 'after']), rng.choice(trig), g.cb()])
+        else:
+            cmds.append(['read'])
+        if path is not None:
+            # make the state reachable and visit it
+            desc['transitions'].append({'trigger': 'visit', 'source': '*', 'dest': path, 'conditions': [], 'unless': [],
+                                        'prepare': [], 'before': [], 'after': []})
+            if 'visit' not in trig:
+                trig.append('visit')
+            for _i in range(2):
+                desc['mods'].insert(rng.randint(0, len(desc['mods'])), ['trigger', rng.randrange(len(desc['models'])), 'visit'])
+    for _ in range(rng.randint(2, 5)):
+        desc['mods'].insert(rng.randint(0, len(desc['mods'])),
+                            ['trigger', rng.randrange(len(desc['models'])), _rand_trigger(rng, desc, pool, trig)])
+    del truth
+
+
+def _walk_paths(states, prefix=''):
+    for s in states:
+        p = prefix + s['name']
+        yield s, p
+        for x in _walk_paths(s['children'], p + SEP):
+            yield x
 
 
 def _walk(states):
@@ -254,9 +336,19 @@ def _arg(lst):
     return list(lst)
 
 
-def realise_state(s, hier):
+def _member(enum, name, always=True):
+    """a state reference as the description's Enum flavour spells it (member; in transitions every other reference
+    stays a plain name, which the library resolves lazily)"""
+    if enum is None or not isinstance(name, str) or name in ('*', '='):
+        return name
+    if not always and sum(map(ord, name)) % 2:
+        return name
+    return mm.ENUMS[enum][name]
+
+
+def realise_state(s, hier, enum=None):
     if s['form'] == 'str':
-        return s['name']
+        return _member(enum, s['name'])
     kw = {}
     if s['on_enter']:
         kw['on_enter'] = _arg(s['on_enter'])
@@ -272,8 +364,8 @@ def realise_state(s, hier):
         if s['initial'] is not None:
             kw['initial'] = copy.deepcopy(s['initial'])
     if s['form'] == 'obj':
-        return (NestedState if hier else State)(s['name'], **kw)
-    d = dict(name=s['name'], **kw)
+        return (NestedState if hier else State)(_member(enum, s['name']), **kw)
+    d = dict(name=_member(enum, s['name']), **kw)
     if s['children']:
         d['children'] = [realise_state(c, hier) for c in s['children']]
     if s['transitions']:
@@ -281,8 +373,10 @@ def realise_state(s, hier):
     return d
 
 
-def realise_trans(t):
-    d = {'trigger': t['trigger'], 'source': copy.deepcopy(t['source']), 'dest': t['dest']}
+def realise_trans(t, enum=None):
+    src = t['source']
+    src = [_member(enum, x, False) for x in src] if isinstance(src, list) else _member(enum, src, False)
+    d = {'trigger': t['trigger'], 'source': src, 'dest': _member(enum, t['dest'], t['trigger'] < 'go2')}
     for k in ('conditions', 'unless', 'prepare', 'before', 'after'):
         if t[k]:
             d[k] = _arg(t[k])
@@ -308,24 +402,29 @@ def build(desc):
         else:
             later.append((obj, md['initial']))
     o = desc['opts']
+    enum = desc.get('enum')
     kw = {k: _arg(v) for k, v in desc['machine_cbs'].items() if v}
     if graph:
         kw['graph_engine'] = 'mermaid'
-    m = cls(model=ctor_models, states=[realise_state(s, hier) for s in desc['states']], initial=desc['initial'],
-            transitions=[realise_trans(t) for t in desc['transitions']], queued=o['queued'],
+    m = cls(model=ctor_models, states=[realise_state(s, hier, enum) for s in desc['states']],
+            initial=_member(enum, desc['initial']),
+            transitions=[realise_trans(t, enum) for t in desc['transitions']], queued=o['queued'],
             send_event=o['send_event'], auto_transitions=o['auto_transitions'],
             ignore_invalid_triggers=o['ignore_invalid_triggers'], model_attribute=o['model_attribute'],
             name=o['name'], **kw)
     for obj, ini in later:
-        m.add_model(obj, initial=ini)
+        m.add_model(obj, initial=_member(enum, ini))
+    m._c14_enum = enum
     return m
 
 
-def fire(machine, midx, name, log=None):
-    """one trigger on one model; returns a JSON-able outcome"""
+def fire(machine, midx, name, log=None, ctx=None):
+    """one trigger on one model; returns a JSON-able outcome.  `ctx`: callback program (reads / modifications
+    issued from inside callbacks), None while histories are replayed"""
     model = machine.models[midx]
     mm.RECORDER['log'] = log
     mm.RECORDER['machine'] = machine
+    mm.RECORDER['ctx'] = ctx
     try:
         try:
             res = model.trigger(name)
@@ -334,18 +433,45 @@ def fire(machine, midx, name, log=None):
             out = ['raised', type(e).__name__]
     finally:
         mm.RECORDER['log'] = None
+        mm.RECORDER['ctx'] = None
     return out
 
 
-def apply_mod(machine, mod):
+class Ctx(object):
+    """the callback program of a case: `script` maps a callback name to commands it issues when it runs —
+    ['read'] (read machine.markup, at most three times per callback) or a dirty-setting modification (once),
+    each followed by a read.  `on_cmd(machine, key, cmd)` is supplied by the check."""
+
+    def __init__(self, script, on_cmd):
+        self.script = script
+        self.on_cmd = on_cmd
+        self.count = {}
+        self.busy = False
+
+    def invoke(self, name):
+        cmds = self.script.get(name)
+        if not cmds or self.busy:
+            return
+        n = self.count[name] = self.count.get(name, 0) + 1
+        self.busy = True      # commands issued from a callback do not themselves run callbacks programs
+        try:
+            for i, cmd in enumerate(cmds):
+                if (cmd[0] == 'read' and n <= 3) or (cmd[0] != 'read' and n == 1):
+                    self.on_cmd(mm.RECORDER['machine'], (name, i), cmd)
+        finally:
+            self.busy = False
+
+
+def apply_mod(machine, mod, ctx=None):
     k = mod[0]
     hier = issubclass(machine.state_cls, NestedState)
+    enum = getattr(machine, '_c14_enum', None)
     if k == 'add_state':
-        machine.add_states(realise_state(mod[1], hier))
+        machine.add_states(realise_state(mod[1], hier, enum))
     elif k == 'add_states':      # one call with a list mixing compound and plain definitions
-        machine.add_states([realise_state(st, hier) for st in mod[1]])
+        machine.add_states([realise_state(st, hier, enum) for st in mod[1]])
     elif k == 'add_transition':
-        machine.add_transition(**realise_trans(mod[1]))
+        machine.add_transition(**realise_trans(mod[1], enum))
     elif k == 'remove_transition':
         machine.remove_transition(mod[1], source=mod[2], dest=mod[3])
     elif k == 'state_cb':
@@ -355,7 +481,7 @@ def apply_mod(machine, mod):
     elif k == 'trans_cb':
         getattr(machine, '%s_%s' % (mod[1], mod[2]))(mod[3])
     elif k == 'trigger':
-        fire(machine, mod[1], mod[2])
+        fire(machine, mod[1], mod[2], ctx=ctx)
     elif k == 'observe':
         observe(machine, mod[1], mod[2], mod[3])
     elif k == 'clone':
@@ -642,7 +768,7 @@ def check_faithful(exp, mk, machine, stage):
         bad('faithful.models', {'expected': len(machine.models), 'markup': len(ms)})
     else:
         for md, e, obj in zip(desc['models'], ms, machine.models):
-            cur = json.loads(json.dumps(getattr(obj, machine.model_attribute)))
+            cur = mm.state_repr(getattr(obj, machine.model_attribute))
             cls = 'self' if md['cls'] == 'self' else '%s.%s' % (mm.ModelA.__module__, mm.MODEL_CLASSES[md['cls']].__name__)
             if e.get('state') != cur or e.get('class-name') != cls:
                 bad('faithful.models', {'expected_state': cur, 'expected_class': cls, 'markup': e})
@@ -690,7 +816,7 @@ def run_history(machine, history):
         log = []
         out = fire(machine, midx, name, log)
         rec.append({'event': [midx, name], 'out': out, 'calls': log,
-                    'states': [json.loads(json.dumps(getattr(x, machine.model_attribute))) for x in machine.models]})
+                    'states': [mm.state_repr(getattr(x, machine.model_attribute)) for x in machine.models]})
     return rec
 
 
@@ -832,7 +958,7 @@ class Codec(object):
     def cfg(self, m):
         models = []
         for x in m.models:
-            st = json.loads(json.dumps(getattr(x, m.model_attribute)))
+            st = mm.state_repr(getattr(x, m.model_attribute))
             cls = 'self' if x is m else x.__module__ + '.' + x.__class__.__name__
             name = x.name if hasattr(x, 'name') else None
             models.append(self.model(cls, name, st))
